@@ -32,10 +32,13 @@ SHAPES = {
     "$(A)-closes-stdout": ("stdout", [([b"hello\n", "close"], 0)]),
     "!(A)-closes-stdout-rc3": ("object", [([b"x\ny\n", "close"], 3)]),
     "$(A)-returns-str": ("stdout", [([b"a\n", ("return", "ret\n")], 0)]),
+    # an alias that silences a library with contextlib.redirect_stdout while its neighbour starts: the
+    # temporary stream must not end up as "the session's stream"
+    "$(S|B);$(A)": ("pipe-then-capture", [([("silence", 2), b"a\n"], 0), ("pass", 0)]),
     # several views of ONE pipeline object in a row: iterate its lines first, then ask for the rest
     "!(A)-iterate-then-views": ("objectiter", [([b"a\n", b"b\n"], 2)]),
 }
-QUICK = ["$(A)-two-chunks", "!(A)-two-chunks", "$(A);$(A)", "$(A|B);$(A)", "$(A)-closes-stdout", "!(A)-iterate-then-views"]  # "$(A|B)" is a prefix of the last one
+QUICK = ["$(A)-two-chunks", "!(A)-two-chunks", "$(A);$(A)", "$(A)-closes-stdout", "!(A)-iterate-then-views", "$(S|B);$(A)"]  # "$(S|B);$(A)" extends "$(A|B);$(A)" (thorough)  # "$(A|B)" is a prefix of the last one
 
 _SHAPE = None
 _XSH = None
@@ -97,6 +100,13 @@ def _mk_alias(s, spec, idx):
             s.point()
             if c == "close":
                 stdout.close()
+            elif isinstance(c, tuple) and c[0] == "silence":
+                import contextlib
+                import io
+
+                with contextlib.redirect_stdout(io.StringIO()), contextlib.redirect_stderr(io.StringIO()):
+                    for _ in range(c[1]):
+                        s.point()
             elif isinstance(c, tuple):
                 return c[1]  # the output handed back as the return value (code 0)
             else:
@@ -130,7 +140,7 @@ def _mk_alias(s, spec, idx):
 
 def _expected(shape):
     kind, stages = SHAPES[shape]
-    data = b"".join(c if isinstance(c, bytes) else (c[1].encode() if isinstance(c, tuple) else b"") for c in stages[0][0])
+    data = b"".join(c if isinstance(c, bytes) else (c[1].encode() if isinstance(c, tuple) and c[0] == "return" else b"") for c in stages[0][0])
     if len(stages) == 2:
         mode = stages[1][0]
         if mode == "pass":
